@@ -345,6 +345,9 @@ def run(ctx):
     from ..core import borrow
     from . import c15
     borrow(ctx, "C02", c15.rule_cx, ctx.cx)
+    # shared clause: the samples handed to the caller are the ones the engine recorded (C09.FETCH-PY)
+    from . import c09 as _c09
+    borrow(ctx, "C02", _c09.rule_fetch_py, ctx.py)
     from .. import lints
     lints.run(ctx, "C02", ctx.py, ["coarsegrain", "kinetics", "librdengine"])
     ctx.assume("floating-point exactness of the Euler sums is not decided; opposed_direction is an involution pairing "
